@@ -32,6 +32,7 @@ from orquestra.quantum import distributions as D
 from orquestra.quantum.distributions import _measurement_outcome_distribution as DD
 from orquestra.quantum import wavefunction as WFM
 from orquestra.quantum.wavefunction import Wavefunction
+from orquestra.quantum.runners.symbolic_simulator import SymbolicSimulator
 
 warnings.simplefilter("ignore")
 hlib.SHARD = 12          # histories are large literals: small shards compile in parallel
@@ -46,7 +47,10 @@ H = Harness("C20", ["OQ.State.Store", "OQ.State.StoreCases"],
             "simplify / conjugate / to_dict / save / sparse ...; counts / distribution / expectation values / "
             "parities; subdistribution / mmd / clipped nll / js / save; probabilities / outcome probabilities / bind ...), "
             "results optionally bound to new pool names and used by later calls, ~20% exact repeats of an earlier call, "
-            "~12% genuine mutators (wf[i]=v / wf[a:b]=[..] / wf[i]=[..] valid and rejected, add_counts, expectation_values_to_real, in-place "
+            "a dedicated stream (20% of the histories, plus two fixed histories in every tier) of simulator calls (get_wavefunction "
+            "with an explicit initial state that is a complex array of the pool or the live amplitudes of a pool wavefunction, "
+            "run_and_measure, exact expectation values, outcome distribution) on circuits whose first operation is a multi-phase "
+            "operation / a gate / a reset; ~12% genuine mutators (wf[i]=v / wf[a:b]=[..] / wf[i]=[..] valid and rejected, add_counts, expectation_values_to_real, in-place "
             "normalisation), an invalid-argument stream (wrong types, out-of-range indices, non-Ising operators); every "
             "object snapshotted before/after every call; non-trivial = at least 5 executed calls touching at least 3 "
             "distinct pool objects, at least one of them twice")
@@ -370,6 +374,15 @@ def build_pool(pspec):
             o = {str(k): int(v) for k, v in s["items"]}
         elif t == "params":
             o = {str(k): val(v) for k, v in s["items"]}
+        elif t == "arr":
+            if "of" in s:                       # the live amplitude array of a pool wavefunction
+                o = pool[s["of"]][0]._amplitude_vector
+            elif "c" in s:
+                o = np.array([complex(a, b) for a, b in s["c"]], dtype=complex)
+            else:
+                o = np.array([float(x) for x in s["r"]], dtype=float)
+        elif t == "sim":
+            o = SymbolicSimulator(seed=s.get("seed"))
         elif t == "globals":
             o = {"pauli_matrix_map": ST_.pauli_matrix_map, "COEFF_MAP": PO.COEFF_MAP, "OPERATOR_MAP": PO.OPERATOR_MAP,
                  "ALLOWED_OPERATORS": PO.ALLOWED_OPERATORS, "X": C.X, "CNOT": C.CNOT, "T": C.T,
@@ -415,7 +428,14 @@ def _seeded(fn):
     return run
 
 
+def _state(st):
+    """initial state handed to a simulator: a raw array of the pool, or the live amplitudes of a pool wavefunction"""
+    return st.amplitudes if isinstance(st, Wavefunction) else st
+
+
 def _setitem(wf, i, v):
+    if not isinstance(wf, Wavefunction):      # invalid-argument stream: plain containers are not the library's __setitem__
+        raise TypeError("not a Wavefunction")
     wf[i] = v
     return None
 
@@ -459,7 +479,7 @@ OPS = {
     "gop_bind": (lambda o, m: o.bind(m), ("gop", "map")),
     "gop_replace_params": (lambda o, p: o.replace_params(tuple(p)), ("gop", "#params")),
     "gop_lifted_matrix": (lambda o, n: o.lifted_matrix(n), ("gop", "#nq")),
-    "gop_apply": (lambda o, wf: o.apply(wf.amplitudes), ("gop", "wf")),
+    "gop_apply": (lambda o, st: o.apply(_state(st)), ("gop", "wf|arr")),
     "gop_to_dict": (lambda o: SER.to_dict(o), ("gop",)),
     # ---- Pauli operators
     "op_add": (lambda a, b: a + b, ("term|sum", "term|sum")),
@@ -547,10 +567,20 @@ OPS = {
     "meas_add_counts": (lambda m, c: m.add_counts(c), ("meas", "counts")),
     "ev_to_real": (lambda e: MEV.expectation_values_to_real(e), ("ev",)),
     "dict_normalize": (lambda r: D.normalize_measurement_outcome_distribution(r), ("rawdict",)),
+    # ---- evaluating a circuit on a simulator (the runner counts its jobs: it is the receiver of an in-place update;
+    #      the circuit, the initial state and the object the state was taken from are arguments)
+    "sim_get_wavefunction": (lambda s, c, st: s.get_wavefunction(c, _state(st)), ("sim", "circ", "arr|wf")),
+    "sim_get_wavefunction0": (lambda s, c: s.get_wavefunction(c), ("sim", "circ")),
+    "sim_run_and_measure": (lambda s, c, n: s.run_and_measure(c, n), ("sim", "circ", "#nsamples")),
+    "sim_exact_expectation": (lambda s, c, o: s.get_exact_expectation_values(c, o), ("sim", "circ", "term|sum")),
+    "sim_distribution": (lambda s, c, n: s.get_measurement_outcome_distribution(c, n), ("sim", "circ", "#nsamples_or_none")),
 }
+SIM_OPS = [o for o in OPS if o.startswith("sim_")]
 # the oracle's own list of in-place operations: op -> (receiver position, nothing changes when it raises)
-MUTATORS = {"wf_setitem": (0, True), "wf_setitem_seq": (0, True), "wf_setitem_symseq": (0, True), "meas_add_counts": (0, False), "ev_to_real": (0, False), "dict_normalize": (0, False)}
-FAMILY = {"circ": "circuit", "circset": "circuit", "gate": "gate", "gop": "gate", "op": "operator", "meas": "measurements",
+MUTATORS = {"wf_setitem": (0, True), "wf_setitem_seq": (0, True), "wf_setitem_symseq": (0, True), "meas_add_counts": (0, False), "ev_to_real": (0, False), "dict_normalize": (0, False),
+            **{o: (0, False) for o in SIM_OPS}}
+GEN_MUTATORS = [o for o in MUTATORS if o not in SIM_OPS]
+FAMILY = {"sim": "simulator", "circ": "circuit", "circset": "circuit", "gate": "gate", "gop": "gate", "op": "operator", "meas": "measurements",
           "par": "measurements", "ev": "measurements", "freq": "measurements", "check": "measurements", "dist": "distribution",
           "dict": "distribution", "wf": "wavefunction"}
 
@@ -594,6 +624,7 @@ def result_type(op, argtypes):
             "meas_from_counts": "meas", "meas_representing": "meas", "par_to_expectation_values": "ev",
             "ev_concatenate": "ev", "meas_get_counts": "counts", "dist_sub": "dist", "dist_make": "dist",
             "dist_from_probabilities": "dist", "wf_bind": "wf", "wf_flip": "wf", "ev_to_real": "ev",
+            "sim_get_wavefunction": "wf", "sim_get_wavefunction0": "wf", "sim_run_and_measure": "meas", "sim_distribution": "dist",
             "dict_normalize": "rawdict"}.get(op)
 
 
@@ -803,8 +834,69 @@ def g_pool(rng):
     if rng.random() < 0.3:
         add("k1", "counts", {"items": [["01", 2], [rng.choice(["0x", "1", "011"]), 1]]})
     add("q0", "params", {"items": [["sigma", rng.choice([{"f": 1.0}, {"f": 0.5}, {"f": 2.0}, {"l": [{"f": 0.5}, {"f": 2.0}]}, {"l": [{"f": 1.0}, {"f": 4.0}, {"f": 0.25}]}, {"i": 0} if rng.random() < 0.3 else {"i": 1}])], ["epsilon", {"f": rng.choice([1e-9, 0.001])}]]})
+    add("a0", "arr", {"c": g_dense_amps(rng, rng.choice([1, 2, 2, 3]))})
+    add("sim0", "sim", {"seed": rng.randint(0, 99)})
     add("GLOBALS", "globals", {})
     return pool
+
+
+def g_dense_amps(rng, nq):
+    """normalised, every entry non-zero with its own phase (a phase applied in place shows on every entry)"""
+    n = 2 ** nq
+    w = [rng.choice([1, 2, 3]) for _ in range(n)]
+    norm = sum(x * x for x in w) ** 0.5
+    out = []
+    for x in w:
+        ph = rng.choice([(1, 0), (0, 1), (-1, 0), (0, -1), (0.6, 0.8), (0.8, -0.6)])
+        out.append([x * ph[0] / norm, x * ph[1] / norm])
+    return out
+
+
+def g_phases(rng, nq):
+    return [{"f": float(dyadic(rng, 24, 3, allow_zero=False))} for _ in range(2 ** nq)]
+
+
+def g_sim_circ(rng, nq, first):
+    """numeric circuit on nq qubits whose first operation is a multi-phase operation / a gate / a reset"""
+    def gate_op():
+        for _ in range(50):
+            g = g_gate(rng, None if nq > 1 else 1, symbolic=False, wrappers=False)
+            if gate_width(g) <= nq and g["g"] not in ("U1c", "V2c"):
+                return {"gate": g, "q": rng.sample(range(nq), gate_width(g))}
+        return {"gate": {"g": "H"}, "q": [0]}
+    ops = [{"multiphase": g_phases(rng, nq)} if first == "multiphase" else {"reset": rng.randrange(nq)} if first == "reset" else gate_op()]
+    for _ in range(rng.randint(0, 3)):
+        ops.append({"multiphase": g_phases(rng, nq)} if rng.random() < 0.3 else gate_op())
+    return {"ops": ops, "nq": nq}
+
+
+def g_sim_pool(rng):
+    """the usual pool with the circuits, the numeric wavefunctions, the arrays and the gate operation made to fit
+    one register width, so that simulator calls with an explicit initial state go through"""
+    nq = rng.choice([1, 2, 2, 3])
+    pool = g_pool(rng)
+    over = {"c0": ("circ", g_sim_circ(rng, nq, "multiphase")),
+            "c1": ("circ", g_sim_circ(rng, nq, rng.choice(["gate", "multiphase"]))),
+            "c2": ("circ", g_sim_circ(rng, nq, rng.choice(["reset", "gate", "multiphase"]))),
+            "o0": ("gop", {"multiphase": g_phases(rng, nq)}),
+            "w0": ("wf", {"amps": g_dense_amps(rng, nq)}),
+            "w2": ("wf", {"amps": g_amps(rng, nq)}),
+            "a0": ("arr", {"c": g_dense_amps(rng, nq)}),
+            "a1": ("arr", {"r": [1.0 if i == 1 % (2 ** nq) else 0.0 for i in range(2 ** nq)]})}
+    out, seen = [], set()
+    for e in pool:
+        if e["n"] in over:
+            t, sp = over[e["n"]]
+            out.append({"n": e["n"], "t": t, "s": sp})
+            seen.add(e["n"])
+        else:
+            out.append(e)
+    tail = out.pop()                                  # GLOBALS stays last
+    for n, (t, sp) in over.items():
+        if n not in seen:
+            out.append({"n": n, "t": t, "s": sp})
+    out.append(tail)
+    return out
 
 
 def g_immediate(rng, kind, types, args):
@@ -828,6 +920,8 @@ def g_immediate(rng, kind, types, args):
         return {"i": rng.choice([0, 1, 2, 2, 3, 4, -1])}
     if kind == "#bool":
         return {"b": rng.random() < 0.5}
+    if kind == "#nsamples_or_none":
+        return rng.choice([{"none": 1}, {"i": 5}, {"i": 1}])
     if kind == "#nsamples":
         return {"i": rng.choice([1, 3, 7, 10, 16])}
     if kind == "#seed":
@@ -858,7 +952,7 @@ def g_immediate(rng, kind, types, args):
 
 FAMILY_OPS = collections.defaultdict(list)
 for _op in OPS:
-    if _op not in MUTATORS:
+    if _op not in GEN_MUTATORS:
         FAMILY_OPS[FAMILY[_op.split("_")[0]]].append(_op)
 # operations named in the statement get more weight than the auxiliary ones
 HEAVY = {"circ_add", "circ_add_op", "circ_bind", "circ_inverse", "circ_controlled", "circ_to_dict", "circ_save",
@@ -869,10 +963,10 @@ HEAVY = {"circ_add", "circ_add_op", "circ_bind", "circ_inverse", "circ_controlle
          "op_circuit", "op_is_ising", "op_hash", "op_eq"}      # the memoising properties and the hash / equality protocol
 
 
-def g_calls(rng, pool, n):
+def g_calls(rng, pool, n, focus=None):
     types = collections.OrderedDict((e["n"], e["t"]) for e in pool)
     fams = list(FAMILY_OPS)
-    focus = rng.sample(fams, 2)
+    focus = focus or rng.sample(fams, 2)
     calls = []
     nkeep = 0
     while len(calls) < n:
@@ -883,11 +977,13 @@ def g_calls(rng, pool, n):
             calls.append(prev)
             continue
         if r < 0.32:
-            op = rng.choice(list(MUTATORS))
+            op = rng.choice(GEN_MUTATORS)
         else:
             fam = rng.choice(focus) if rng.random() < 0.6 else rng.choice(fams)
             ops = FAMILY_OPS[fam]
             op = rng.choice([o for o in ops if o in HEAVY] or ops) if rng.random() < 0.6 else rng.choice(ops)
+            if fam == "simulator" and rng.random() < 0.6:
+                op = "sim_get_wavefunction"
         kinds = OPS[op][1]
         args, argtypes, ok = [], [], True
         for kd in kinds:
@@ -939,10 +1035,79 @@ def f1_history():
     return {"pool": pool, "calls": calls, "tag": "f1-regression"}
 
 
+_MP2 = {"multiphase": [{"f": 0.5}, {"f": -0.75}, {"f": 1.25}, {"f": 2.0}]}
+_SIM_POOL = [
+    {"n": "c_stage1", "t": "circ", "s": {"ops": [{"gate": {"g": "H"}, "q": [0]}, {"gate": {"g": "CNOT"}, "q": [0, 1]}, {"gate": {"g": "RX", "p": [{"f": 0.25}]}, "q": [1]}]}},
+    {"n": "c_mp", "t": "circ", "s": {"ops": [_MP2, {"gate": {"g": "H"}, "q": [1]}, {"gate": {"g": "CNOT"}, "q": [1, 0]}]}},
+    {"n": "c_gate", "t": "circ", "s": {"ops": [{"gate": {"g": "H"}, "q": [0]}, _MP2]}},
+    {"n": "c_reset", "t": "circ", "s": {"ops": [{"reset": 0}, {"gate": {"g": "H"}, "q": [0]}], "nq": 2}},
+    {"n": "c_only_mp", "t": "circ", "s": {"ops": [_MP2]}},
+    {"n": "o_mp", "t": "gop", "s": _MP2},
+    {"n": "w0", "t": "wf", "s": {"amps": [[0.5, 0.0], [0.0, 0.5], [-0.5, 0.0], [0.0, -0.5]]}},
+    {"n": "a_complex", "t": "arr", "s": {"c": [[0.5, 0.0], [0.0, 0.5], [-0.5, 0.0], [0.5, 0.0]]}},
+    {"n": "a_real", "t": "arr", "s": {"r": [0.0, 1.0, 0.0, 0.0]}},
+    {"n": "a_of_w0", "t": "arr", "s": {"of": "w0"}},
+    {"n": "t0", "t": "term", "s": {"ops": [[0, "Z"]], "c": {"f": 1.0}}},
+    {"n": "sim0", "t": "sim", "s": {"seed": 7}},
+    {"n": "GLOBALS", "t": "globals", "s": {}}]
+
+
+def _c(op, *names, keep=None, **lit):
+    return {"op": op, "a": [{"o": n} for n in names] + [{"v": v} for v in lit.get("v", [])], "keep": keep}
+
+
+def sim_history_stages():
+    """two-stage evaluation: the wavefunction of a first circuit is the explicit initial state (its live complex
+    amplitude array) of circuits starting with a multi-phase operation / a gate / a reset; every call repeated"""
+    calls = [_c("sim_get_wavefunction0", "sim0", "c_stage1", keep="x0"),
+             _c("sim_get_wavefunction", "sim0", "c_mp", "x0", keep="x1"),
+             _c("wf_probabilities", "x0"),
+             _c("sim_get_wavefunction", "sim0", "c_mp", "x0", keep="x2"),
+             _c("wf_eq", "x1", "x2"),
+             _c("sim_get_wavefunction", "sim0", "c_gate", "x0"),
+             _c("sim_get_wavefunction", "sim0", "c_reset", "x0"),
+             _c("sim_get_wavefunction", "sim0", "c_only_mp", "x0"),
+             _c("sim_get_wavefunction", "sim0", "c_mp", "w0"),
+             _c("gop_apply", "o_mp", "x0"),
+             _c("gop_apply", "o_mp", "x0"),
+             _c("sim_run_and_measure", "sim0", "c_mp", v=[{"i": 5}]),
+             _c("sim_exact_expectation", "sim0", "c_mp", "t0"),
+             _c("sim_distribution", "sim0", "c_mp", v=[{"none": 1}]),
+             _c("wf_amplitudes", "x0")]
+    return {"pool": _SIM_POOL, "calls": calls, "tag": "simulator-fixed"}
+
+
+def sim_history_arrays():
+    """explicit initial states that are raw arrays of the pool: complex (shared with nothing, and the very array
+    inside a live Wavefunction) and real"""
+    calls = [_c("sim_get_wavefunction", "sim0", "c_mp", "a_complex", keep="x0"),
+             _c("sim_get_wavefunction", "sim0", "c_mp", "a_complex"),
+             _c("sim_get_wavefunction", "sim0", "c_mp", "a_of_w0", keep="x1"),
+             _c("wf_str", "w0"),
+             _c("sim_get_wavefunction", "sim0", "c_mp", "a_of_w0"),
+             _c("sim_get_wavefunction", "sim0", "c_mp", "a_real"),
+             _c("sim_get_wavefunction", "sim0", "c_gate", "a_complex"),
+             _c("sim_get_wavefunction", "sim0", "c_reset", "a_complex"),
+             _c("sim_get_wavefunction", "sim0", "c_only_mp", "a_of_w0"),
+             _c("gop_apply", "o_mp", "a_complex"),
+             _c("gop_apply", "o_mp", "a_of_w0"),
+             _c("gop_apply", "o_mp", "a_real"),
+             _c("wf_probabilities", "w0"),
+             _c("sim_get_wavefunction0", "sim0", "c_only_mp")]
+    return {"pool": _SIM_POOL, "calls": calls, "tag": "simulator-fixed"}
+
+
 def gen(rng, tier):
     n = {"quick": 260, "search": 200}.get(tier, 4000)
     yield f1_history()
+    yield sim_history_stages()
+    yield sim_history_arrays()
     for _ in range(n):
+        if rng.random() < 0.2:
+            pool = g_sim_pool(rng)
+            calls = g_calls(rng, pool, rng.randint(8, 30), focus=["simulator", "simulator", rng.choice(["wavefunction", "gate", "circuit"])])
+            yield {"pool": pool, "calls": calls, "tag": "simulator-stream"}
+            continue
         pool = g_pool(rng)
         calls = g_calls(rng, pool, rng.randint(5, 30))
         yield {"pool": pool, "calls": calls}
@@ -990,6 +1155,10 @@ def run_case(inp):
         keep = call.get("keep")
         if keep and not raised:
             pt = pool_type_of(op, out)
+            if isinstance(out, Wavefunction) and isinstance(out._amplitude_vector, np.ndarray) and any(
+                    np.shares_memory(out._amplitude_vector, x) for x in
+                    [getattr(v, "_amplitude_vector", v) for v in vals] if isinstance(x, np.ndarray)) and not any(v is out for v in vals):
+                pt = None       # Wavefunction(complex ndarray) keeps the caller's buffer (recorded observation, not a pool object)
             if pt is None:
                 keep = None
             else:
